@@ -75,6 +75,7 @@ class Ctx:
                                "case": ops, "impl": impl.get(cid), "model": model.get(cid),
                                "readable": [decode_line(o)[:300] for o in ops], "failing_input_found": True,
                                "monitor": why, "signature": "monitor:" + why.split(":")[0],
+                               "monitor_fn": monitor.__name__, "model_free": model_free,
                                "broken": "monitor of stream '%s' on the implementation's own answers" % stream}
                     return [("violation", "%s: %s" % (stream, why), payload)]
         if not bad:
@@ -97,6 +98,7 @@ class Ctx:
                    "readable_impl": decode_line(a2[idx2])[:600] if idx2 < len(a2) else None,
                    "readable_model": decode_line(b2[idx2])[:600] if idx2 < len(b2) else None,
                    "disagreeing_cases": len(bad), "cases_in_stream": len(cases),
+                   "monitor_fn": monitor.__name__ if monitor else None,
                    "broken": "correspondence stream '%s' (model Deltio.Model.Driver.run_file vs /repo)" % stream}
         # 2. search for a concrete failing input with the monitor, model out of the loop:
         #    the shrunk case first, then every case of the stream.
@@ -179,10 +181,21 @@ class Ctx:
 
 def replay(pid, payload, seed):
     """Re-runs a replay file on the current tree."""
-    if payload.get("engine") == "seq":
+    if payload.get("engine") in ("seq", "abandon"):
         rel = set(payload["relevant"]) if payload.get("relevant") else None
-        bad, impl, model = seqdiff("replay-" + pid, [("replay", payload["case"])], rel)
-        mon = PROPS[pid].get("monitor")
+        name = payload.get("monitor_fn")
+        mon = (getattr(M, name, None) or globals().get(name)) if name else None
+        if payload.get("engine") == "abandon":
+            mon = M.mon_abandon
+        mon = mon or PROPS[pid].get("monitor")
+        no_model = any(o.split(" ")[0] in ("CANCEL", "XH", "XP", "XC") for o in payload["case"])
+        if payload.get("model_free") or payload.get("engine") == "abandon" or no_model:
+            d = workdir("replay-" + pid)
+            write_cases(os.path.join(d, "cases.txt"), [("replay", payload["case"])])
+            run_impl_seq(os.path.join(d, "cases.txt"), os.path.join(d, "impl.out"))
+            bad, impl, model = [], parse_results(os.path.join(d, "impl.out")), {}
+        else:
+            bad, impl, model = seqdiff("replay-" + pid, [("replay", payload["case"])], rel)
         why = mon(payload["case"], impl.get("replay", [])) if mon else None
         if bad or why:
             p = dict(payload)
@@ -190,6 +203,9 @@ def replay(pid, payload, seed):
                       "failing_input_found": bool(why)})
             return ("replay", "replayed case still fails", p)
         return None
+    if payload.get("engine") == "racestress":
+        out = eng_racestress(Ctx(pid, "quick", seed, {"evaluations": 0, "distinct": set(), "samples": [], "streams": {}, "traces": 0}))
+        return out[0] if out else None
     if payload.get("engine") == "fc":
         bad, a, b = fc_diff("replay-" + pid, [("replay", payload["case"])])
         why = mon_fc(payload["case"], a.get("replay", []))
@@ -504,9 +520,12 @@ CSUB_NOTE = ("The concurrent theorems are about a small-step Coq model of ONE su
              "permit, FIFO waiters, notify_waiters counter, forwarding on drop; the actor with its bounded mailbox; unary and "
              "streaming consumers at the granularity of their await points; cancellation, the 300 s limit and the deleted "
              "branch as steps). It is hand-written from subscription_actor.rs, api/subscriber.rs and tokio's notify.rs and "
-             "is not trace-tied to the code: its refutation theorem for the pinned code was replayed on the "
-             "implementation and failed there exactly as predicted (and no longer fails after fix fd73b54), and the "
-             "cancel-woken / woken-dropped / delete-release streams run the real Notify under the same schedules on every check.")
+             "is tied to the code on every run at poll granularity (stream concsub-polls: the server's own unary Pull "
+             "handlers held and polled one poll at a time by the harness, dropped at chosen points, the mailbox filled, "
+             "the runtime run only when the schedule says so; the extracted model Model/CsDriver.v must give the same "
+             "answers, docs/FORMAT-cs.md). Streaming consumers and interleavings finer than one poll (multi-thread "
+             "runtime) are covered by the theorems only; the refutation theorem for the pinned code was replayed on the "
+             "implementation and failed there exactly as predicted (and no longer fails after fix fd73b54).")
 
 def eng_id_lists(mon, kinds):
     def eng(ctx):
@@ -638,7 +657,11 @@ reg("C13", [eng_paging_pure, eng_paging_walks, eng_control_random(M.mon_walk, {"
                "three List RPCs page through exactly the project's/topic's live resources in creation order. " + SEQ_NOTE,
     level_note="The base64 decoder model (strict canonical padding) is validated on random and near-miss strings.")
 
-reg("C15", [eng_capacity, eng_data_random(M.mon_batch, {"PULL"}, streams=True, tag="data-stream-random")],
+def eng_cs_late(ctx):
+    return eng_cs(ctx)
+
+
+reg("C15", [eng_capacity, eng_data_random(M.mon_batch, {"PULL"}, streams=True, tag="data-stream-random"), eng_cs_late],
     rule="capacity: backlog sizes around 0/1/1000 (thorough: 65535/65536/65541) x max_messages around 1, 1000, 65535, "
          "65536 multiples, i32::MAX; stream-capacity likewise for max_outstanding_messages. non-trivial = non-empty response",
     monitor=M.mon_batch, title="Pull batches respect their size limit and are empty only when allowed", design_ref="7/C15",
@@ -835,6 +858,81 @@ def eng_wait_enum(ctx):
     return ctx.seq("wait-enum", cases, relevant=WAIT_OPS, triggers={"SR", "JOIN"}, monitor=M.mon_wait)
 
 
+def cs_norm(ops, lines):
+    """Lines of a held-handler case as compared between model and implementation: XQ / XD / STATS only; STATS
+    without the topic field; once the subscription is deleted, which status a finishing handler reports is the
+    choice of its select! (messages branch or deleted branch), so only the fact that it finished is compared."""
+    out, deleted = [], False
+    for i, o in enumerate(ops):
+        k = o.split(" ")[0]
+        l = lines[i] if i < len(lines) else "<missing>"
+        if k == "DS":
+            deleted = True
+        if k == "STATS":
+            t = l.split(" ")
+            l = " ".join(t[:4]) if t[1:2] == ["0"] else " ".join(t[:2])
+        elif k == "XQ":
+            if deleted and l.startswith("XQ done"):
+                l = "XQ done *"
+        elif k != "XD" and not l.startswith("!"):
+            l = k
+        out.append(l)
+    return out
+
+
+def eng_cs(ctx):
+    """ConcSub (the small-step model of one subscription, ho = true) against the implementation at poll granularity:
+    the server's own unary Pull handlers are held by the harness (XN), polled one poll at a time (XQ), dropped (XD);
+    the mailbox is filled (XF); the runtime runs only at XT / gRPC ops.  Model side: Model/CsDriver.v, extracted."""
+    cases = gen.cs_cases(ctx.seed * 100 + 3, ctx.n(600, 20000))
+    d = workdir("%s-cs" % ctx.pid)
+    cp, io, mo = os.path.join(d, "cases.txt"), os.path.join(d, "impl.out"), os.path.join(d, "model.out")
+    write_cases(cp, cases)
+    run_impl_seq(cp, io)
+    sh([MODELDRV, "cs", cp, mo], timeout=3000)
+    impl, model = parse_results(io), parse_results(mo)
+    st = ctx.stats
+    st["evaluations"] += len(cases)
+    s = st["streams"].setdefault("concsub-polls", {"cases": 0, "ops": {}, "answers": {}})
+    s["cases"] += len(cases)
+    out = []
+    for cid, ops in cases:
+        a, b = impl.get(cid, ["<no result>"]), model.get(cid, ["<no result>"])
+        for o in ops:
+            k = o.split(" ")[0]
+            s["ops"][k] = s["ops"].get(k, 0) + 1
+        for l in a:
+            if l.startswith(("XQ", "XD")):
+                key = " ".join(l.split(" ")[:2])
+                s["answers"][key] = s["answers"].get(key, 0) + 1
+        if any(l.startswith("XQ done 0") for l in a):
+            st["distinct"].add(hashlib.sha1("\n".join(ops).encode()).hexdigest())
+        why = M.mon_cs(ops, a)
+        if why and len(out) < 3:
+            out.append(("violation", "concsub-polls: " + why,
+                        {"engine": "seq", "stream": "concsub-polls", "case": ops, "impl": a, "model": b, "model_free": True,
+                         "monitor_fn": "mon_cs", "readable": [decode_line(o)[:200] for o in ops],
+                         "failing_input_found": True, "monitor": why, "signature": "monitor:" + why.split(":")[0],
+                         "broken": "monitor of stream 'concsub-polls' on the implementation's own answers"}))
+            continue
+        na, nb = cs_norm(ops, a), cs_norm(ops, b)
+        if na != nb and len(out) < 3:
+            idx = next((i for i in range(min(len(na), len(nb))) if na[i] != nb[i]), min(len(na), len(nb)))
+            out.append(("correspondence", "concsub-polls: case %s: implementation and Model.ConcSub disagree at op %d" % (cid, idx),
+                        {"engine": "seq", "stream": "concsub-polls", "case": ops, "impl": a, "model": b, "model_free": True,
+                         "monitor_fn": "mon_cs", "first_disagreement": idx, "readable": [decode_line(o)[:200] for o in ops],
+                         "failing_input_found": False, "signature": "correspondence:concsub-polls",
+                         "broken": "correspondence stream 'concsub-polls' (Deltio.Model.CsDriver.cs_file over Model.ConcSub "
+                                   "vs the unary Pull handler of /repo)"}))
+        elif na == nb:
+            st["traces"] += 1
+    if cases and len(st["samples"]) < 6:
+        cid, ops = cases[0]
+        st["samples"].append({"stream": "concsub-polls", "case": cid, "ops": [decode_line(o)[:120] for o in ops[:14]],
+                              "impl": [decode_line(l)[:120] for l in impl.get(cid, [])[:14]]})
+    return out
+
+
 def eng_racestress(ctx):
     """Multi-thread runtime, real time: CreateSubscription racing a DeleteSubscription of the same name that spins
     until the name appears (the schedule of ConcActorsP.C11_refuted_without_guard), then the topic's list is compared
@@ -885,7 +983,7 @@ def eng_woken_dropped(ctx):
     return ctx.seq("woken-dropped", cases, triggers={"XP"}, monitor=M.mon_wait, always_monitor=True, model_free=True)
 
 
-reg("C06", [eng_wait_enum, eng_wait_random(M.mon_wait, {"SR", "JOIN"}), eng_cancel_woken, eng_woken_dropped],
+reg("C06", [eng_wait_enum, eng_wait_random(M.mon_wait, {"SR", "JOIN"}), eng_cancel_woken, eng_woken_dropped, eng_cs],
     rule="wait-enum: every combination of up to three waiting consumers (stream limit 1 / stream limit 10 / blocked "
          "Pull limit 1 / blocked Pull limit 5) x five sequences of availability events (publish 1/3/0, nack, expiry, "
          "ack), every consumer and STATS observed after each event; wait-random: random scripts with several "
@@ -894,7 +992,10 @@ reg("C06", [eng_wait_enum, eng_wait_random(M.mon_wait, {"SR", "JOIN"}), eng_canc
          "queued on the subscription) - no model comparison, the lost-wake-up monitor reads every case; woken-dropped: "
          "the unary Pull handler itself polled by the harness, woken by a Publish, then with 0..24 (thorough 0..33) "
          "requests put into the subscription's mailbox polled k times and dropped, a second blocked Pull or a stream "
-         "waiting behind it (the schedule of C06_refuted_cancel_owing). non-trivial = a waiting consumer received messages",
+         "waiting behind it (the schedule of C06_refuted_cancel_owing); concsub-polls: random schedules of new handler / "
+         "one poll / drop / fill the mailbox / run the runtime / publish / expire all / delete, compared line by line with "
+         "the extracted ConcSub model and read by mon_cs (a pending handler on a non-empty backlog after every consumer "
+         "had its turns). non-trivial = a waiting consumer received messages",
     monitor=M.mon_wait, title="Waiting consumers are woken when a message becomes available", design_ref="7/C06",
     technique="Coq: token invariant of a small-step model of tokio Notify + actor + consumers (induction over all "
               "interleavings), refutation for the pinned code; serving loop of the quiescent model; differential "
@@ -914,7 +1015,7 @@ reg("C06", [eng_wait_enum, eng_wait_random(M.mon_wait, {"SR", "JOIN"}), eng_canc
                "scheduler, which is assumed; batch contents are abstract (counters) in the concurrent model and concrete in "
                "the sequential one.")
 
-reg("C12", [eng_delete_release, eng_wait_random(M.mon_release, {"DS"}), eng_burst_shapes],
+reg("C12", [eng_delete_release, eng_wait_random(M.mon_release, {"DS"}), eng_burst_shapes, eng_cs],
     rule="delete-release: per runtime seed, DeleteSubscription with two streams (request side open / closed), a blocked "
          "Pull, consumers of another subscription, and (variants) ack/nack/pull/get/publish calls started without "
          "letting the runtime settle, then every consumer observed; wait-random as for C06. non-trivial = a "
